@@ -226,6 +226,7 @@ def search(ctx, broken):
         evaluate_b(sub, [G.compact(G.run_fixed(e, o)) for e, o in fixed], "search-probes")
     if not sub.violations:
         run(sub, deep=True)
+    K.disagreement_violations(ctx, sub, "c32")
     ctx.violations.extend(sub.violations)
 
 
